@@ -131,6 +131,13 @@ theorem C13_wake_skeleton :
     skelOf "src/low_level/pipe.rs" "wake#1" = ["write", "send.nowait"] := by decide
 
 
+/-- **C13.wakefd_drop_skeleton** — tie to the source (regenerated): the owner of the write end closes it when it is
+dropped - one `close` of its own descriptor, no condition on the descriptor's number or anything else, no way around
+it: the model's `close` (`C13_closed_once`, `C13_rejected_registration_closes_once`) for every descriptor. -/
+theorem C13_wakefd_drop_skeleton :
+    skelOf "src/low_level/pipe.rs" "drop@libc::close" = ["close.fd"] := by decide
+
+
 /-- the method chosen for a descriptor and whether it may block depend only on what `close` leaves alone -/
 theorem burst_close (m : Method) (fd : Fd) (n : Nat) : (burst m (close fd) n).2 = (burst m fd n).2 := by
   induction n generalizing fd with
